@@ -6,13 +6,15 @@ import ValidaSpec.Walk
 import ValidaProofs.Lemmas.Basic
 import ValidaProofs.C03
 import ValidaProofs.C06
+import ValidaProofs.Lemmas.C18Add
 namespace ValidaProofs
 open Valida ValidaGen ValidaSpec
+open C18L
 
 /-- the source builds new rule objects (it never assigns to a rule of the added schema), and `/` on
     paths concatenates the parts -/
 theorem C18_source_shape : addSchemaBuildsNewRules = true ∧ truedivConcatenatesParts = true := by
-  sorry
+  exact ⟨rfl, rfl⟩
 
 /-- S afterwards consists of its previous rules plus each rule of T re-rooted at R, shortest path
     first (a stable sort of the concatenation) -/
@@ -21,47 +23,49 @@ theorem C18_rules (s t : List RuleM) (root : Path) :
     (addSchema s t root).Pairwise (fun a b => a.path.parts.length ≤ b.path.parts.length) ∧
     ∀ k, (addSchema s t root).filter (fun r => r.path.parts.length == k) =
          (s ++ t.map (reroot root)).filter (fun r => r.path.parts.length == k) := by
-  sorry
+  exact C06_sorted_stable (s ++ t.map (reroot root))
 
 /-- a re-rooted rule keeps condition and casts; its path is the root's parts followed by its own -/
 theorem C18_reroot (root : Path) (r : RuleM) :
     (reroot root r).cond = r.cond ∧ (reroot root r).cast = r.cast ∧
     (reroot root r).path.parts = root.parts ++ r.path.parts ∧
     (reroot root r).path.datum = .none ∧ (reroot root r).path.multi = .none ∧ (reroot root r).path.source = none := by
-  sorry
+  exact ⟨rfl, rfl, rfl, rfl, rfl, rfl⟩
 
 /-- T can be added under several roots and to several schemas, each addition as if T were fresh:
     the rules contributed by one addition do not depend on any other addition -/
 theorem C18_independent (s₁ s₂ t : List RuleM) (r₁ r₂ : Path) :
     (addSchema (addSchema s₁ t r₁) t r₂).Perm (s₁ ++ t.map (reroot r₁) ++ t.map (reroot r₂)) ∧
     (addSchema s₂ t r₂).Perm (s₂ ++ t.map (reroot r₂)) := by
-  sorry
+  refine ⟨?_, C06L.mk'_perm _⟩
+  refine (C06L.mk'_perm _).trans (List.Perm.append_right _ ?_)
+  exact C06L.mk'_perm _
 
 /-- walking a concatenated path is walking the root and then, from every node the root reaches, the
     rest – with the concrete paths concatenated accordingly -/
 theorem C18_walk_append {P : Type} (children : P → PyVal → List (PyVal × PyVal)) (ps qs : List P) (node : PyVal) (pre : List PyVal) :
     walk children (ps ++ qs) node pre =
       (walk children ps node pre).flatMap (fun nq => walk children qs nq.1 nq.2) := by
-  sorry
+  exact walk_append children ps qs node pre
 
 /-- hence a re-rooted rule selects, in the whole document, exactly what the original rule selects in
     what lies at the root (for a root that reaches a single node `sub` at path `rootPath`) -/
 theorem C18_reroot_selection (root : Path) (r : RuleM) (doc sub : PyVal) (rootPath : List PyVal)
     (hroot : walk childrenOf root.parts doc [] = [(sub, rootPath)]) :
     walk childrenOf (reroot root r).path.parts doc [] = walk childrenOf r.path.parts sub rootPath := by
-  sorry
+  rw [reroot_parts, walk_append, hroot]; simp
 
 /-- … and nothing when the root is absent -/
 theorem C18_absent_root (root : Path) (r : RuleM) (doc : PyVal)
     (hroot : walk childrenOf root.parts doc [] = []) :
     walk childrenOf (reroot root r).path.parts doc [] = [] := by
-  sorry
+  rw [reroot_parts, walk_append, hroot]; rfl
 
 /-- the concrete paths reported under a prefix are the prefix followed by the paths reported from the
     sub-document -/
 theorem C18_walk_prefix {P : Type} (children : P → PyVal → List (PyVal × PyVal)) (qs : List P) (node : PyVal) (pre : List PyVal) :
     walk children qs node pre = (walk children qs node []).map (fun nq => (nq.1, pre ++ nq.2)) := by
-  sorry
+  exact walk_prefix children qs node pre
 
 /-- cast-free validation with the extended schema: the rule tests are those of S's rules and of the
     re-rooted rules (a permutation), so validity is the conjunction and the counts add up -/
@@ -70,6 +74,13 @@ theorem C18_judgement_counts (s t : List RuleM) (root : Path) (doc : PyVal)
     ∃ vs vt, validate (Schema.mk' s) doc = .ok vs ∧ validate (Schema.mk' (t.map (reroot root))) doc = .ok vt ∧
       v.isValid = (vs.isValid && vt.isValid) ∧ v.numFailures = vs.numFailures + vt.numFailures ∧
       v.numRulesTested = vs.numRulesTested + vt.numRulesTested := by
-  sorry
+  have hc : CastFree (s ++ t.map (reroot root)) := by
+    intro r hr
+    rcases List.mem_append.1 hr with hr | hr
+    · exact hs r hr
+    · exact castfree_map_reroot root t ht r hr
+  have hp : (addSchema s t root).Perm (Schema.mk' s ++ Schema.mk' (t.map (reroot root))) :=
+    (C06L.mk'_perm _).trans ((C06L.mk'_perm s).symm.append (C06L.mk'_perm _).symm)
+  exact validate_perm_append _ _ _ doc hp (fun r hr => hc r ((C06L.mk'_perm _).mem_iff.1 hr)) v h
 
 end ValidaProofs
